@@ -526,11 +526,23 @@ func (c *Compiler) mapKeyCode(typ *runtime.Type) (Code, error) {
 		// keys of any string type are used directly, even when the type is a TextMarshaler
 		return c.stringCode(typ, false)
 	case c.implementsMarshalText(typ):
-		return c.marshalTextCode(typ)
+		code, err := c.marshalTextCode(typ)
+		if err != nil {
+			return nil, err
+		}
+		code.isMapKey = true // a nil key is the empty string; a nil value is null
+		return code, nil
 	}
 	switch typ.Kind() {
 	case reflect.Ptr:
-		return c.ptrCode(typ)
+		code, err := c.ptrCode(typ)
+		if err != nil {
+			return nil, err
+		}
+		if text, ok := code.value.(*MarshalTextCode); ok {
+			text.isMapKey = true
+		}
+		return code, nil
 	case reflect.String:
 		return c.stringCode(typ, false)
 	case reflect.Int:
